@@ -345,6 +345,8 @@ def check_genbank_permutations(spec, ctx):
                 break
             recs = list(parse_genbank(io.StringIO(t), gbk_type=GenBankParserType.LOCUS_TAG))
             c = canon_genes(recs[0].to_annotation_collection())
+            if count == 1 and any(g.get("locus_tag") in CONFUSABLE_TAGS for g in spec["obj"]["genes"]):
+                ctx.label("confusable_locus_tags")
             if base is None:
                 base = c
                 # the unpermuted file must contain every source gene
@@ -398,6 +400,9 @@ def check_genbank_record_order(spec, ctx):
         ctx.label("locus_tag_collision_on_one_record")
 
 
+CONFUSABLE_TAGS = ["pXO_1", "pXO_01", "pXO_001", "pxo_1", "pXO_1a", "pXO_10", "pXO1"]
+
+
 @st.composite
 def strat_gb_record_order(draw, tier="quick"):
     n = draw(st.integers(2, 3))
@@ -406,6 +411,10 @@ def strat_gb_record_order(draw, tier="quick"):
         r = draw(gb_one_record("", max_genes=3, isoforms=False))   # same tag scheme in every record: locus tags are reused across records
         for i, g in enumerate(r["obj"]["genes"]):
             g["locus_tag"] = "LT_%03d" % i
+        if k == 0 and draw(st.booleans()):
+            fam = draw(st.permutations(CONFUSABLE_TAGS))
+            for i, g in enumerate(r["obj"]["genes"]):
+                g["locus_tag"] = fam[i % len(fam)]
         r["obj"]["feature_collections"] = []
         recs.append({"obj": r["obj"], "genome": r["genome"]})
     if draw(st.booleans()):
@@ -428,12 +437,97 @@ def strat_gb_record_order(draw, tier="quick"):
 def strat_gb_perm(draw, tier="quick"):
     sp = draw(gb_one_record("", isoforms=False))   # one record, one gene model per gene (what the LOCUS_TAG grouping is specified for)
     # locus-tag-complete: every gene carries its own locus tag
+    confusable = draw(st.booleans())
+    fam = draw(st.permutations(CONFUSABLE_TAGS))
     for i, g in enumerate(sp["obj"]["genes"]):
-        g["locus_tag"] = "LT_%03d" % i
+        # half of the cases: distinct tags that tie under a sloppy comparison (leading zeros, case, prefix)
+        g["locus_tag"] = fam[i] if confusable and i < len(fam) else "LT_%03d" % i
     sp["flavor"] = draw(st.sampled_from(["PROKARYOTIC", "EUKARYOTIC"]))
     sp["perm_seed"] = draw(st.integers(0, 1000))
     sp["max_perms"] = 24 if tier == "quick" else 120
     return sp
+
+
+# ------------------------------------------------------------------------------------ merged qualifiers of parsed feature collections
+
+MERGE_KEYS = ["note", "function", "experiment", "bound_moiety", "inference", "standard_name"]
+FEATURE_TYPES = ["misc_feature", "misc_binding", "regulatory", "protein_bind", "repeat_region"]
+
+
+def check_genbank_feature_merge(spec, ctx):
+    """non-gene features sharing a locus tag are parsed into one feature collection: its qualifiers are the key-wise sorted set
+    union of its members' qualifiers (as Biopython delivers them), each member keeps exactly its own"""
+    from Bio.Seq import Seq
+    from Bio.SeqFeature import SeqFeature, SimpleLocation
+    from Bio.SeqRecord import SeqRecord
+    rec = SeqRecord(Seq("ACGT" * 60), id="chrT", name="chrT", description="x")
+    rec.annotations["molecule_type"] = "DNA"
+    for f in spec["features"]:
+        q = {k: list(v) for k, v in f["qualifiers"].items()}
+        q["locus_tag"] = [f["tag"]]
+        rec.features.append(SeqFeature(SimpleLocation(f["start"], f["end"], strand=1 if f["strand"] == "+" else -1), type=f["type"], qualifiers=q))
+    buf = io.StringIO()
+    SeqIO.write([rec], buf, "genbank")
+    text = buf.getvalue()
+    raw = [{k: list(v) for k, v in f.qualifiers.items()} for f in next(SeqIO.parse(io.StringIO(text), "genbank")).features]
+    if len(raw) != len(spec["features"]):
+        return
+    groups = {}
+    for f, q in zip(spec["features"], raw):
+        groups.setdefault(q["locus_tag"][0], []).append((f, q))
+    if any(len(v) >= 2 for v in groups.values()):
+        ctx.nt("features_sharing_a_locus_tag")
+    if any(len({x.strip() for x in vs}) < len(set(vs)) for q in raw for vs in q.values()) or any(
+            len({x.strip() for q in [m[1] for m in ms] for x in q.get(k, [])}) < len({x for q in [m[1] for m in ms] for x in q.get(k, [])}) for ms in groups.values() for k in MERGE_KEYS):
+        ctx.label("values_differing_by_surrounding_blanks")
+    with warnings.catch_warnings():
+        warnings.simplefilter("ignore")
+        try:
+            parsed = list(parse_genbank(io.StringIO(text)))
+        except Exception as e:
+            ctx.fail("feature_merge_parse_raises", repr(e)[:120])
+            return
+    colls = {}
+    for c in parsed[0].annotation.feature_collections:
+        colls.setdefault(c.locus_tag, []).append(c)
+    if not ctx.eq("one_collection_per_locus_tag", {k: len(v) for k, v in colls.items()}, {k: 1 for k in groups}):
+        return
+    for tag, ms in groups.items():
+        c = colls[tag][0]
+        exp = {}
+        for _, q in ms:
+            for k, vs in q.items():
+                exp.setdefault(k, set()).update(vs)
+        got = {k: list(v) for k, v in (c.qualifiers or {}).items()}
+        ctx.eq("merged_qualifiers_are_the_sorted_union", got, {k: sorted(v) for k, v in exp.items()}, extra=tag)
+        members = sorted(c.feature_intervals, key=lambda m: (m.interval_starts[0], m.interval_ends[-1]))
+        want = sorted(ms, key=lambda m: (m[0]["start"], m[0]["end"]))
+        if ctx.eq("members_of_collection", len(members), len(want), extra=tag):
+            for m, (_, q) in zip(members, want):
+                ctx.eq("member_keeps_its_own_qualifiers", {k: sorted(v) for k, v in (m.qualifiers or {}).items()}, {k: sorted(set(v)) for k, v in q.items()}, extra=tag)
+
+
+@st.composite
+def strat_gb_feature_merge(draw, tier="quick"):
+    n = draw(st.integers(2, 5))
+    tags = draw(st.lists(st.sampled_from(["LT_7", "LT_8", "LT_07", "lt_7", "LT_70"]), min_size=1, max_size=3, unique=True))
+    words = draw(st.lists(st.text(alphabet="abcdefgh XYZ019_-", min_size=1, max_size=7).filter(lambda w: w.strip() and "  " not in w), min_size=2, max_size=5, unique=True))
+    pool = []
+    for w in words:
+        w = w.strip()
+        pool += [w, w + " ", " " + w, w.upper(), w + "x"]
+    feats, pos = [], 3
+    for i in range(n):
+        L = draw(st.integers(3, 20))
+        q = {}
+        for k in draw(st.lists(st.sampled_from(MERGE_KEYS), min_size=1, max_size=3, unique=True)):
+            q[k] = draw(st.lists(st.sampled_from(pool), min_size=1, max_size=3, unique=True))
+        feats.append({"start": pos, "end": pos + L, "strand": draw(st.sampled_from("+-")), "type": draw(st.sampled_from(FEATURE_TYPES)), "tag": draw(st.sampled_from(tags)), "qualifiers": q})
+        pos += L + draw(st.integers(1, 8))
+    # the records of one locus tag are contiguous in the file (generic features are grouped as they come; only genes are claimed
+    # to be independent of the order of records)
+    feats.sort(key=lambda f: tags.index(f["tag"]))
+    return {"features": feats}
 
 
 def pred_rank0(spec, clause, detail):
@@ -457,6 +551,9 @@ PROP = Prop(
             rule="no recognised key present: name and id fall back to the first word of /note"),
         Leg("types_merge", check_types_merge, strategy=strat_types, n_quick=1500, n_thorough=15000, must_hit=["type_key_present", "shared_keys"],
             rule="type-like qualifier keys (*_class, gbkey, *_type; mixed case; substrings) and near misses; pairs of qualifier dictionaries for merge_qualifiers"),
+        Leg("genbank_feature_merge", check_genbank_feature_merge, strategy=strat_gb_feature_merge, n_quick=150, n_thorough=2000, shards_quick=4,
+            must_hit=["features_sharing_a_locus_tag", "values_differing_by_surrounding_blanks"],
+            rule="GenBank records (written with Biopython) of 2..5 non-gene features carrying 1..3 confusable locus tags and 1..3 qualifier keys with values from a pool of near-duplicates (surrounding blanks, case, suffix): parsed feature collections' qualifiers vs the key-wise sorted set union of what Biopython delivers for the members"),
         Leg("genbank_record_order", check_genbank_record_order, strategy=strat_gb_record_order, n_quick=15, n_thorough=200, shards_quick=8,
             must_hit=["locus_tag_collision_on_one_record", "record_without_gene_rows"],
             rule="2..3 GenBank records that reuse each other's locus tags (one of them possibly holding two genes with one tag), concatenated in every order and parsed in HYBRID and LOCUS_TAG mode: the genes parsed for each sequence (or the refusal) must not depend on the order of the records"),
